@@ -1887,7 +1887,11 @@ class Interp:
         """canonical form of a value: bit-vectors that are recognisable patterns become Lin"""
         if isinstance(v, VInt):
             if v.bv is not None:
-                return VInt(v.w, v.s, lin=bv_to_lin(st, v))
+                l = bv_to_lin(st, v)
+                sa = l.single_atom()
+                if sa and isinstance(sa[0], tuple) and sa[0] and sa[0][0] == "opqint" and isinstance(sa[0][1], tuple) and sa[0][1] and sa[0][1][0] == "bv":
+                    return v        # not a recognisable pattern: keep the bits (an opaque atom would lose them)
+                return VInt(v.w, v.s, lin=l)
             return v
         if isinstance(v, VTuple):
             return VTuple([self.norm(st, x) for x in v.items])
